@@ -93,10 +93,27 @@ def rLog (c : Config) : List (Bool × Nat) :=
   [(c.logLevel != "" && !logLevels.contains c.logLevel, 38),
    (c.logFormat != "" && !logFormats.contains c.logFormat, 39)]
 
+/-- the largest number of seconds a `time.Duration` holds (`math.MaxInt64 / int64(time.Second)`) and
+the largest `uint32`: beyond them the conversions applied to accepted values would wrap -/
+def maxSeconds : Int := 9223372036
+def maxU32 : Int := 4294967295
+def tooLong (v : Int) : Bool := decide (v > maxSeconds)
+
+/-- `validateRanges` (last): seconds of the always-used server timeouts and of every enabled
+feature, then the breaker counts -/
+def rRanges (c : Config) : List (Bool × Nat) :=
+  [(tooLong c.tRead, 40), (tooLong c.tWrite, 41), (tooLong c.tIdle, 42), (tooLong c.tHandler, 43),
+   (tooLong c.tShutdown, 44), (tooLong c.tDial, 45), (tooLong c.tBRead, 46), (tooLong c.tBIdle, 47),
+   (c.wsOn && tooLong c.wsIdleTimeout, 48), (c.actOn && tooLong c.actInterval, 49), (c.actOn && tooLong c.actTimeout, 50),
+   (c.pasOn && tooLong c.pasTimeout, 51), (c.rlOn && tooLong c.rlRefill, 52),
+   (c.cbOn && tooLong c.cbInterval, 53), (c.cbOn && tooLong c.cbTimeout, 54),
+   (c.cbOn && decide (c.cbMax > maxU32), 55), (c.cbOn && decide (c.cbFailure > maxU32), 56),
+   (c.cbOn && decide (c.cbSuccess > maxU32), 57)]
+
 /-- every rule as (violated?, rule id), in validation order -/
 def rules (c : Config) : List (Bool × Nat) :=
   [(c.backends.isEmpty, 1)] ++ backendRules c.backends ++ rServer c ++ rTimeouts c ++ rLB c ++ rHealth c ++
-  rRL c ++ rCB c ++ rMetrics c ++ rAdmin c ++ rLog c
+  rRL c ++ rCB c ++ rMetrics c ++ rAdmin c ++ rLog c ++ rRanges c
 
 /-- `Validate`: the id of the first violated rule -/
 def validate (c : Config) : Option Nat := ((rules c).find? (·.1)).map (·.2)
@@ -121,7 +138,18 @@ def DAdmin (c : Config) : Prop := c.admOn = true → 1 ≤ c.admPort ∧ c.admPo
 def DLog (c : Config) : Prop :=
   (c.logLevel = "" ∨ c.logLevel ∈ logLevels) ∧ (c.logFormat = "" ∨ c.logFormat ∈ logFormats)
 
+/-- every duration fits a `time.Duration`, every breaker count a `uint32` -/
+def DRanges (c : Config) : Prop :=
+  (c.tRead ≤ maxSeconds ∧ c.tWrite ≤ maxSeconds ∧ c.tIdle ≤ maxSeconds ∧ c.tHandler ≤ maxSeconds ∧
+   c.tShutdown ≤ maxSeconds ∧ c.tDial ≤ maxSeconds ∧ c.tBRead ≤ maxSeconds ∧ c.tBIdle ≤ maxSeconds) ∧
+  (c.wsOn = true → c.wsIdleTimeout ≤ maxSeconds) ∧
+  (c.actOn = true → c.actInterval ≤ maxSeconds ∧ c.actTimeout ≤ maxSeconds) ∧
+  (c.pasOn = true → c.pasTimeout ≤ maxSeconds) ∧ (c.rlOn = true → c.rlRefill ≤ maxSeconds) ∧
+  (c.cbOn = true → c.cbInterval ≤ maxSeconds ∧ c.cbTimeout ≤ maxSeconds ∧
+     c.cbMax ≤ maxU32 ∧ c.cbFailure ≤ maxU32 ∧ c.cbSuccess ≤ maxU32)
+
 def Documented (c : Config) : Prop :=
-  DBackends c ∧ DServer c ∧ DTimeouts c ∧ DLB c ∧ DHealth c ∧ DRL c ∧ DCB c ∧ DMetrics c ∧ DAdmin c ∧ DLog c
+  DBackends c ∧ DServer c ∧ DTimeouts c ∧ DLB c ∧ DHealth c ∧ DRL c ∧ DCB c ∧ DMetrics c ∧ DAdmin c ∧ DLog c ∧
+  DRanges c
 
 end Helios.Cfg
